@@ -418,26 +418,50 @@ fn oracle_versym_use(case: &[u8], obs: &mut Obs) -> Result<(), String> {
         m::Verdef { vd_version: 1, vd_flags: 3, vd_ndx: idx, vd_cnt: 1, vd_hash: 0x4321, vd_aux: 20, vd_next: 0 }.write(w);
         m::Verdaux { vda_name: 9, vda_next: 0 }.write(w);
     });
-    let versym = m::enc_bytes(enc, |w| w.u16(word));
+    // several symbols bound to the same version, each with its own bit 15, resolved on ONE table handle in a
+    // generated order (with repeats): every answer depends on the queried symbol's own word only
+    let nwords = 1 + c.below(4) as usize;
+    let mut words = vec![word];
+    for _ in 1..nwords {
+        words.push(idx | if c.bool() { 0x8000 } else { 0 });
+    }
+    let versym = m::enc_bytes(enc, |w| {
+        for x in &words {
+            w.u16(*x)
+        }
+    });
+    let mut order: Vec<(bool, usize)> = vec![(true, 0), (false, 0)];
+    for _ in 0..c.below(8) {
+        order.push((c.bool(), c.idx(nwords)));
+    }
     let r: Result<(), String> = with_endian!(spec, |e| {
         let t = SymbolVersionTable::new(VersionIndexTable::new(e, class, &versym), Some((VerNeedIterator::new(e, class, 1, 0, &need), StringTable::new(strs))), Some((VerDefIterator::new(e, class, 1, 0, &def), StringTable::new(strs))));
-        match t.get_requirement(0) {
-            Ok(Some(r)) if r.file == "libx.so" && r.name == "VER_1" && r.hash == 0x1234 && r.flags == 7 && r.hidden == hidden => {}
-            other => return Err(format!("get_requirement for versym word {:#06x} (index {}, hidden {}) = {:?}", word, idx, hidden, other.map_err(|e| err_name(&e)))),
-        }
-        match t.get_definition(0) {
-            Ok(Some(d)) if d.hash == 0x4321 && d.flags == 3 && d.hidden == hidden => {}
-            Ok(Some(d)) => return Err(format!("get_definition for versym word {:#06x}: hash {:#x} flags {} hidden {}", word, d.hash, d.flags, d.hidden)),
-            Ok(None) => return Err(format!("get_definition for versym word {:#06x} (index {}, hidden {}) = None", word, idx, hidden)),
-            Err(e) => return Err(format!("get_definition failed with {}", err_name(&e))),
+        for (k, (req, i)) in order.iter().enumerate() {
+            let (word, hidden) = (words[*i], words[*i] & 0x8000 != 0);
+            let hist = || format!("query #{} of {:?} on one handle over versym {:04x?}", k, order, words);
+            if *req {
+                match t.get_requirement(*i) {
+                    Ok(Some(r)) if r.file == "libx.so" && r.name == "VER_1" && r.hash == 0x1234 && r.flags == 7 && r.hidden == hidden => {}
+                    other => return Err(format!("get_requirement({}) for versym word {:#06x} (index {}, hidden {}) = {:?} [{}]", i, word, idx, hidden, other.map_err(|e| err_name(&e)), hist())),
+                }
+            } else {
+                match t.get_definition(*i) {
+                    Ok(Some(d)) if d.hash == 0x4321 && d.flags == 3 && d.hidden == hidden => {}
+                    Ok(Some(d)) => return Err(format!("get_definition({}) for versym word {:#06x}: hash {:#x} flags {} hidden {} [{}]", i, word, d.hash, d.flags, d.hidden, hist())),
+                    Ok(None) => return Err(format!("get_definition({}) for versym word {:#06x} (index {}, hidden {}) = None [{}]", i, word, idx, hidden, hist())),
+                    Err(e) => return Err(format!("get_definition failed with {} [{}]", err_name(&e), hist())),
+                }
+            }
         }
         Ok(())
     });
     r.map_err(|s| format!("{} {}: {}", enc.name(), SPEC_NAMES[spec as usize], s))?;
+    let mixed = words.iter().any(|w| w & 0x8000 != 0) && words.iter().any(|w| w & 0x8000 == 0);
+    obs.label_if(mixed, "same_version_hidden_and_not_on_one_handle");
     if hidden {
         obs.nontrivial();
     }
-    obs.describe(|| json!({"versym_word": format!("{:#06x}", word), "enc": enc.name()}));
+    obs.describe(|| json!({"versym_words": format!("{:04x?}", words), "queries": format!("{:?}", order), "enc": enc.name()}));
     Ok(())
 }
 
@@ -478,7 +502,7 @@ pub fn property() -> Property {
     Property {
         id: "C02",
         level: "exploration",
-        rule: "struct: cases are (one of 18 structure types, class, byte order, fixed or run-time spec, a field-value assignment with boundary/top-bit/per-byte-distinct/raw values, embedding offset and padding); the independent ELF writer encodes the values per the gABI tables and parse_at must return exactly them (u32 fields zero-extended, d_tag and ELF32 r_addend sign-extended, r_info split by the ELF32/ELF64 macros), advance by exactly the ABI size, agree with size_for, ParsingTable::get, ParsingIterator, and for the file header with parse_ident+parse_tail, ElfBytes.ehdr and ElfStream.ehdr; one byte short must fail. links: the crate-private link fields vd_aux/vd_next/vda_next/vn_aux/vn_next/vna_next observed through where VerDefIterator/VerNeedIterator go. nhdr: one note record with generated n_namesz/n_descsz/n_type decoded through NoteIterator (typed GNU forms only from a full descriptor). versym_use: a one-record .gnu.version_r/.gnu.version_d and a versym word index|hidden<<15: get_requirement/get_definition resolve by the low 15 bits and report bit 15 as hidden. accessors: st_bind/st_symtype/st_vis/is_undefined and VersionIndex index/hidden/local/global exhaustively over 2^16 values. Non-trivial (struct): some field has its top bit set and all same-width fields hold pairwise different values; (links): non-contiguous placement.",
+        rule: "struct: cases are (one of 18 structure types, class, byte order, fixed or run-time spec, a field-value assignment with boundary/top-bit/per-byte-distinct/raw values, embedding offset and padding); the independent ELF writer encodes the values per the gABI tables and parse_at must return exactly them (u32 fields zero-extended, d_tag and ELF32 r_addend sign-extended, r_info split by the ELF32/ELF64 macros), advance by exactly the ABI size, agree with size_for, ParsingTable::get, ParsingIterator, and for the file header with parse_ident+parse_tail, ElfBytes.ehdr and ElfStream.ehdr; one byte short must fail. links: the crate-private link fields vd_aux/vd_next/vda_next/vn_aux/vn_next/vna_next observed through where VerDefIterator/VerNeedIterator go. nhdr: one note record with generated n_namesz/n_descsz/n_type decoded through NoteIterator (typed GNU forms only from a full descriptor). versym_use: a one-record .gnu.version_r/.gnu.version_d and 1..4 versym words index|hidden<<15 of that one version, queried in a generated order with repeats on one table handle: get_requirement/get_definition resolve by the low 15 bits and report the queried word's own bit 15 as hidden. accessors: st_bind/st_symtype/st_vis/is_undefined and VersionIndex index/hidden/local/global exhaustively over 2^16 values. Non-trivial (struct): some field has its top bit set and all same-width fields hold pairwise different values; (links): non-contiguous placement.",
         assumptions: &["the ELF writer's layout equals <elf.h> (checked at start-up against reference/struct_layout.tsv)", "VerDef/VerNeed records are generated with version 1 only (other versions are outside the statement)"],
         subs: vec![Sub::new("struct", oracle_struct, 200, 1_000_000, 40_000_000), Sub::new("links", oracle_links, 320, 200_000, 5_000_000), Sub::new("nhdr", oracle_nhdr, 80, 200_000, 5_000_000), Sub::new("versym_use", oracle_versym_use, 40, 100_000, 3_000_000), Sub::enumerated("accessors", oracle_accessors, enum_accessors, true)],
         extras: vec![crate::fuzz::c02_choice],
